@@ -248,13 +248,18 @@ inductive Request.Decoded (b : Bytes) : Request → Prop
       data.length = q.toNat * 2 → q.toNat * 2 ≤ 255 →
       Request.Decoded b (.readWriteMultipleRegisters ra rq wa ⟨data, q.toNat⟩)
   | custom (fc : UInt8) (d : Bytes) :
-      fc < 0x80 → (FunctionCode.new fc).isOther = true → b[0]? = some fc →
+      fc < 0x80 → (FunctionCode.new fc).isOther = true →
       Request.Decoded b (.custom (.custom fc) d)
 
 theorem getD_of_lt (b : Bytes) {i : Nat} (h : i < b.length) : b.getD i 0 = b[i] := by
   simp [List.getD_eq_getElem?_getD, List.getElem?_eq_getElem h]
 
-theorem Request.decode_inv {b : Bytes} {v : Request} (h : Request.decode b = .ok v) : Request.Decoded b v := by
+theorem head_eq {b : Bytes} (h0 : 0 < b.length) {x : UInt8} (hv : x = b[0]) : b[0]? = some x := by
+  rw [List.getElem?_eq_getElem h0, hv]
+
+/-- what `Request.decode` returns on success, and the function code it was decoded from -/
+theorem Request.decode_inv {b : Bytes} {v : Request} (h : Request.decode b = .ok v) :
+    Request.Decoded b v ∧ b[0]? = some v.fc.value := by
   unfold Request.decode at h
   by_cases he : b.isEmpty
   · rw [if_pos he] at h; cases h
@@ -270,12 +275,14 @@ theorem Request.decode_inv {b : Bytes} {v : Request} (h : Request.decode b = .ok
     rw [read16_eq_ok (b := b) (i := 1) (by omega), read16_eq_ok (b := b) (i := 3) (by omega)] at h
     simp only [Res.bind'_ok, Res.ok.injEq] at h
     subst h
-    constructor
+    exact ⟨by constructor, head_eq h0 hv⟩
   case writeSingleCoil =>
     rw [read16_eq_ok (b := b) (i := 1) (by omega), read16_eq_ok (b := b) (i := 3) (by omega)] at h
     simp only [Res.bind'_ok] at h
     cases hc : u16CoilToBool (rd16 b[3] b[3 + 1]) with
-    | ok c => rw [hc] at h; simp only [Res.bind'_ok, Res.ok.injEq] at h; subst h; constructor
+    | ok c =>
+      rw [hc] at h; simp only [Res.bind'_ok, Res.ok.injEq] at h; subst h
+      exact ⟨by constructor, head_eq h0 hv⟩
     | err e => rw [hc] at h; cases h
     | panic => rw [hc] at h; cases h
   case writeMultipleCoils =>
@@ -287,8 +294,7 @@ theorem Request.decode_inv {b : Bytes} {v : Request} (h : Request.decode b = .ok
     rw [if_neg hb] at h
     simp only [sliceFrom, if_pos (show 6 ≤ b.length by omega), Res.bind'_ok, Res.ok.injEq] at h
     subst h
-    refine Request.Decoded.writeMultipleCoils _ _ ?_ ?_ ?_
-    · rw [List.getElem?_eq_getElem h0, hv]
+    refine ⟨Request.Decoded.writeMultipleCoils _ _ (head_eq h0 hv) ?_ ?_, head_eq h0 hv⟩
     · simp only [wmcQuantity, getD_of_lt b (show 3 < b.length by omega), getD_of_lt b (show 4 < b.length by omega)]
     · simp only [wmcByteCount, getD_of_lt b (show 5 < b.length by omega)]; omega
   case writeMultipleRegisters =>
@@ -302,7 +308,7 @@ theorem Request.decode_inv {b : Bytes} {v : Request} (h : Request.decode b = .ok
     simp only [slice, if_pos hs, Res.bind'_ok, Res.ok.injEq] at h
     subst h
     have := b[5].toNat_lt
-    refine Request.Decoded.writeMultipleRegisters _ _ _ ?_ ?_
+    refine ⟨Request.Decoded.writeMultipleRegisters _ _ _ ?_ ?_, head_eq h0 hv⟩
     · simp only [List.length_take, List.length_drop]; omega
     · omega
   case readWriteMultipleRegisters =>
@@ -317,7 +323,7 @@ theorem Request.decode_inv {b : Bytes} {v : Request} (h : Request.decode b = .ok
     simp only [slice, if_pos hs, Res.bind'_ok, Res.ok.injEq] at h
     subst h
     have := b[9].toNat_lt
-    refine Request.Decoded.readWriteMultipleRegisters _ _ _ _ _ ?_ ?_
+    refine ⟨Request.Decoded.readWriteMultipleRegisters _ _ _ _ _ ?_ ?_, head_eq h0 hv⟩
     · simp only [List.length_take, List.length_drop]; omega
     · omega
   all_goals
@@ -325,7 +331,238 @@ theorem Request.decode_inv {b : Bytes} {v : Request} (h : Request.decode b = .ok
     · rw [if_pos hlt] at h
       simp only [sliceFrom, if_pos (show 1 ≤ b.length by omega), Res.bind'_ok, Res.ok.injEq] at h
       subst h
-      exact Request.Decoded.custom _ _ hlt (by rw [hfc]; rfl) (List.getElem?_eq_getElem h0)
+      exact ⟨Request.Decoded.custom _ _ hlt (by rw [hfc]; rfl), List.getElem?_eq_getElem h0⟩
     · rw [if_neg hlt] at h; cases h
+
+/-! ### inversion of the response decoder -/
+
+/-- what a successfully decoded response looks like -/
+inductive Response.Decoded : Response → Prop
+  | readCoils (bc : UInt8) (data : Bytes) : data.length = bc.toNat →
+      Response.Decoded (.readCoils ⟨data, bc.toNat * 8⟩)
+  | readDiscreteInputs (bc : UInt8) (data : Bytes) : data.length = bc.toNat →
+      Response.Decoded (.readDiscreteInputs ⟨data, bc.toNat * 8⟩)
+  | writeSingleCoil (a : UInt16) : Response.Decoded (.writeSingleCoil a)
+  | writeMultipleCoils (a q : UInt16) : Response.Decoded (.writeMultipleCoils a q)
+  | writeSingleRegister (a w : UInt16) : Response.Decoded (.writeSingleRegister a w)
+  | writeMultipleRegisters (a q : UInt16) : Response.Decoded (.writeMultipleRegisters a q)
+  | readInputRegisters (bc : UInt8) (data : Bytes) : data.length = bc.toNat →
+      Response.Decoded (.readInputRegisters ⟨data, bc.toNat / 2⟩)
+  | readHoldingRegisters (bc : UInt8) (data : Bytes) : data.length = bc.toNat →
+      Response.Decoded (.readHoldingRegisters ⟨data, bc.toNat / 2⟩)
+  | readWriteMultipleRegisters (bc : UInt8) (data : Bytes) : data.length = bc.toNat →
+      Response.Decoded (.readWriteMultipleRegisters ⟨data, bc.toNat / 2⟩)
+  | custom (fc : UInt8) (d : Bytes) : (FunctionCode.new fc).isOther = true →
+      Response.Decoded (.custom (FunctionCode.new fc) d)
+
+theorem Response.decode_inv {b : Bytes} {v : Response} (h : Response.decode b = .ok v) : Response.Decoded v := by
+  unfold Response.decode at h
+  by_cases he : b.isEmpty
+  · rw [if_pos he] at h; cases h
+  rw [if_neg he] at h
+  have h0 := isEmpty_false_length he
+  rw [idx_eq_ok h0, Res.bind'_ok] at h
+  by_cases hm : b.length < minResponsePduLen (FunctionCode.new b[0])
+  · rw [if_pos hm] at h; cases h
+  rw [if_neg hm] at h
+  cases hfc : FunctionCode.new b[0] <;> simp only [hfc, minResponsePduLen] at hm h
+  case readCoils | readDiscreteInputs =>
+    rw [idx_eq_ok (b := b) (i := 1) (by omega)] at h
+    simp only [Res.bind'_ok] at h
+    by_cases hb : b[1].toNat + 2 > b.length
+    · rw [if_pos hb] at h; cases h
+    rw [if_neg hb] at h
+    have hs : 2 ≤ b[1].toNat + 2 ∧ b[1].toNat + 2 ≤ b.length := by omega
+    simp only [slice, if_pos hs, Res.bind'_ok, Res.ok.injEq] at h
+    subst h
+    constructor
+    simp only [List.length_take, List.length_drop]; omega
+  case readInputRegisters | readHoldingRegisters | readWriteMultipleRegisters =>
+    rw [idx_eq_ok (b := b) (i := 1) (by omega)] at h
+    simp only [Res.bind'_ok] at h
+    by_cases hb : b[1].toNat + 2 > b.length
+    · rw [if_pos hb] at h; cases h
+    rw [if_neg hb] at h
+    have hs : 2 ≤ 2 + b[1].toNat ∧ 2 + b[1].toNat ≤ b.length := by omega
+    simp only [slice, if_pos hs, Res.bind'_ok, Res.ok.injEq] at h
+    subst h
+    constructor
+    simp only [List.length_take, List.length_drop]; omega
+  case writeSingleCoil =>
+    rw [read16_eq_ok (b := b) (i := 1) (by omega)] at h
+    simp only [Res.bind'_ok, Res.ok.injEq] at h
+    subst h; constructor
+  case writeMultipleCoils | writeSingleRegister | writeMultipleRegisters =>
+    rw [read16_eq_ok (b := b) (i := 1) (by omega), read16_eq_ok (b := b) (i := 3) (by omega)] at h
+    simp only [Res.bind'_ok, Res.ok.injEq] at h
+    subst h; constructor
+  all_goals
+    simp only [sliceFrom, if_pos (show 1 ≤ b.length by omega), Res.bind'_ok, Res.ok.injEq] at h
+    subst h
+    rw [← hfc]
+    exact Response.Decoded.custom _ _ (by rw [hfc]; rfl)
+
+
+/-! ### the decoders on explicit byte strings -/
+
+theorem Request.decode_fixed_image :
+    (∀ a q, Request.decode (Request.readCoils a q).image = .ok (.readCoils a q)) ∧
+    (∀ a q, Request.decode (Request.readDiscreteInputs a q).image = .ok (.readDiscreteInputs a q)) ∧
+    (∀ a q, Request.decode (Request.readInputRegisters a q).image = .ok (.readInputRegisters a q)) ∧
+    (∀ a q, Request.decode (Request.readHoldingRegisters a q).image = .ok (.readHoldingRegisters a q)) ∧
+    (∀ a q, Request.decode (Request.writeSingleRegister a q).image = .ok (.writeSingleRegister a q)) := by
+  have h1 : FunctionCode.new 0x01 = .readCoils := by decide
+  have h2 : FunctionCode.new 0x02 = .readDiscreteInputs := by decide
+  have h3 : FunctionCode.new 0x03 = .readHoldingRegisters := by decide
+  have h4 : FunctionCode.new 0x04 = .readInputRegisters := by decide
+  have h6 : FunctionCode.new 0x06 = .writeSingleRegister := by decide
+  refine ⟨?_, ?_, ?_, ?_, ?_⟩ <;> intro a q <;>
+    simp [Request.image, be16, Request.decode, idx, read16, h1, h2, h3, h4, h6, minRequestPduLen, rd16_be16]
+
+theorem u16CoilToBool_boolToU16Coil (s : Bool) : u16CoilToBool (boolToU16Coil s) = .ok s := by
+  cases s <;> decide
+
+theorem Request.decode_writeSingleCoil_image (a : UInt16) (s : Bool) :
+    Request.decode (Request.writeSingleCoil a s).image = .ok (.writeSingleCoil a s) := by
+  have h5 : FunctionCode.new 0x05 = .writeSingleCoil := by decide
+  simp [Request.image, be16, Request.decode, idx, read16, h5, minRequestPduLen, rd16_be16,
+    u16CoilToBool_boolToU16Coil]
+
+theorem Request.decode_wmc_bytes (x1 x2 x3 x4 bc : UInt8) (rest : Bytes) (h : bc.toNat ≤ rest.length) :
+    Request.decode (0x0F :: x1 :: x2 :: x3 :: x4 :: bc :: rest) =
+      .ok (.writeMultipleCoils (rd16 x1 x2) ⟨rest, (rd16 x3 x4).toNat⟩) := by
+  have hfc : FunctionCode.new 0x0F = .writeMultipleCoils := by decide
+  simp [Request.decode, idx, read16, hfc, minRequestPduLen, sliceFrom]
+  rw [if_neg (by omega), if_neg (by omega)]
+
+theorem Request.decode_wmr_bytes (x1 x2 x3 x4 bc : UInt8) (data : Bytes) (h : bc.toNat = data.length)
+    (hq : bc.toNat = (rd16 x3 x4).toNat * 2) :
+    Request.decode (0x10 :: x1 :: x2 :: x3 :: x4 :: bc :: data) =
+      .ok (.writeMultipleRegisters (rd16 x1 x2) ⟨data, (rd16 x3 x4).toNat⟩) := by
+  have hfc : FunctionCode.new 0x10 = .writeMultipleRegisters := by decide
+  simp [Request.decode, idx, read16, hfc, minRequestPduLen, slice]
+  rw [if_neg (by omega), if_neg (by omega), if_pos (by omega), h, List.take_length]
+  rfl
+
+theorem Request.decode_rwmr_bytes (r1 r2 r3 r4 x1 x2 x3 x4 bc : UInt8) (data : Bytes) (h : bc.toNat = data.length)
+    (hq : bc.toNat = (rd16 x3 x4).toNat * 2) :
+    Request.decode (0x17 :: r1 :: r2 :: r3 :: r4 :: x1 :: x2 :: x3 :: x4 :: bc :: data) =
+      .ok (.readWriteMultipleRegisters (rd16 r1 r2) (rd16 r3 r4) (rd16 x1 x2) ⟨data, (rd16 x3 x4).toNat⟩) := by
+  have hfc : FunctionCode.new 0x17 = .readWriteMultipleRegisters := by decide
+  simp [Request.decode, idx, read16, hfc, minRequestPduLen, slice]
+  rw [if_neg (by omega), if_neg (by omega), if_pos (by omega), h, List.take_length]
+  rfl
+
+theorem Request.decode_custom_bytes (fc : UInt8) (d : Bytes) (hlt : fc < 0x80)
+    (ho : (FunctionCode.new fc).isOther = true) :
+    Request.decode (fc :: d) = .ok (.custom (.custom fc) d) := by
+  cases hfc : FunctionCode.new fc <;> simp [hfc, FunctionCode.isOther] at ho <;>
+    simp [Request.decode, idx, hfc, minRequestPduLen, sliceFrom, hlt]
+
+theorem Response.decode_custom_bytes (fc : UInt8) (d : Bytes) (ho : (FunctionCode.new fc).isOther = true) :
+    Response.decode (fc :: d) = .ok (.custom (FunctionCode.new fc) d) := by
+  cases hfc : FunctionCode.new fc <;> simp [hfc, FunctionCode.isOther] at ho <;>
+    simp [Response.decode, idx, hfc, minResponsePduLen, sliceFrom]
+
+theorem Response.decode_coils_bytes (bc : UInt8) (data : Bytes) (h : bc.toNat = data.length) :
+    Response.decode (0x01 :: bc :: data) = .ok (.readCoils ⟨data, bc.toNat * 8⟩) ∧
+    Response.decode (0x02 :: bc :: data) = .ok (.readDiscreteInputs ⟨data, bc.toNat * 8⟩) := by
+  have h1 : FunctionCode.new 0x01 = .readCoils := by decide
+  have h2 : FunctionCode.new 0x02 = .readDiscreteInputs := by decide
+  constructor <;> simp [Response.decode, idx, h1, h2, minResponsePduLen, slice] <;>
+    rw [if_neg (by omega), if_neg (by omega), if_pos (by omega), h, List.take_length] <;> rfl
+
+theorem Response.decode_regs_bytes (bc : UInt8) (data : Bytes) (h : bc.toNat = data.length) :
+    Response.decode (0x03 :: bc :: data) = .ok (.readHoldingRegisters ⟨data, bc.toNat / 2⟩) ∧
+    Response.decode (0x04 :: bc :: data) = .ok (.readInputRegisters ⟨data, bc.toNat / 2⟩) ∧
+    Response.decode (0x17 :: bc :: data) = .ok (.readWriteMultipleRegisters ⟨data, bc.toNat / 2⟩) := by
+  have h3 : FunctionCode.new 0x03 = .readHoldingRegisters := by decide
+  have h4 : FunctionCode.new 0x04 = .readInputRegisters := by decide
+  have h17 : FunctionCode.new 0x17 = .readWriteMultipleRegisters := by decide
+  refine ⟨?_, ?_, ?_⟩ <;> simp [Response.decode, idx, h3, h4, h17, minResponsePduLen, slice] <;>
+    rw [if_neg (by omega), if_neg (by omega), if_pos (by omega), h, List.take_length] <;> rfl
+
+theorem Response.decode_fixed_image :
+    (∀ a, Response.decode (Response.writeSingleCoil a).image = .ok (.writeSingleCoil a)) ∧
+    (∀ a q, Response.decode (Response.writeMultipleCoils a q).image = .ok (.writeMultipleCoils a q)) ∧
+    (∀ a q, Response.decode (Response.writeSingleRegister a q).image = .ok (.writeSingleRegister a q)) ∧
+    (∀ a q, Response.decode (Response.writeMultipleRegisters a q).image = .ok (.writeMultipleRegisters a q)) := by
+  have h5 : FunctionCode.new 0x05 = .writeSingleCoil := by decide
+  have h6 : FunctionCode.new 0x06 = .writeSingleRegister := by decide
+  have hf : FunctionCode.new 0x0F = .writeMultipleCoils := by decide
+  have h10 : FunctionCode.new 0x10 = .writeMultipleRegisters := by decide
+  refine ⟨?_, ?_, ?_, ?_⟩ <;> intros <;>
+    simp [Response.image, be16, Response.decode, idx, read16, h5, h6, hf, h10, minResponsePduLen, rd16_be16]
+
+
+/-! ### decoding the wire image of a value (general in the value) -/
+
+theorem UInt8.toNat_ofNat_of_le {n : Nat} (h : n ≤ 255) : (UInt8.ofNat n).toNat = n := by
+  rw [UInt8.toNat_ofNat']; omega
+
+theorem rd16_ofNat_split {n : Nat} (h : n < 65536) :
+    (rd16 (UInt8.ofNat ((UInt16.ofNat n).toNat / 256)) (UInt8.ofNat ((UInt16.ofNat n).toNat % 256))).toNat = n := by
+  rw [rd16_be16, UInt16.toNat_ofNat']; omega
+
+theorem Request.redecode_wmc (a : UInt16) (c : Coils) (hq : c.quantity < 65536)
+    (h1 : c.packedLen ≤ 255) (h2 : c.packedLen ≤ c.data.length) :
+    Request.decode (Request.writeMultipleCoils a c).image =
+      .ok (.writeMultipleCoils a ⟨c.data.take c.packedLen, c.quantity⟩) := by
+  have himg : (Request.writeMultipleCoils a c).image =
+      0x0F :: UInt8.ofNat (a.toNat / 256) :: UInt8.ofNat (a.toNat % 256) ::
+        UInt8.ofNat ((UInt16.ofNat c.quantity).toNat / 256) :: UInt8.ofNat ((UInt16.ofNat c.quantity).toNat % 256) ::
+        UInt8.ofNat c.packedLen :: c.data.take c.packedLen := rfl
+  rw [himg, Request.decode_wmc_bytes _ _ _ _ _ _
+    (by rw [UInt8.toNat_ofNat_of_le h1, List.length_take]; omega), rd16_be16, rd16_ofNat_split hq]
+
+theorem Request.redecode_wmr (a : UInt16) (d : Data) (hq : d.quantity < 65536)
+    (h1 : d.quantity * 2 ≤ 255) (h2 : d.data.length = d.quantity * 2) :
+    Request.decode (Request.writeMultipleRegisters a d).image = .ok (.writeMultipleRegisters a d) := by
+  have himg : (Request.writeMultipleRegisters a d).image =
+      0x10 :: UInt8.ofNat (a.toNat / 256) :: UInt8.ofNat (a.toNat % 256) ::
+        UInt8.ofNat ((UInt16.ofNat d.quantity).toNat / 256) :: UInt8.ofNat ((UInt16.ofNat d.quantity).toNat % 256) ::
+        UInt8.ofNat (d.quantity * 2) :: d.data := rfl
+  rw [himg, Request.decode_wmr_bytes _ _ _ _ _ _
+    (by rw [UInt8.toNat_ofNat_of_le h1, h2])
+    (by rw [UInt8.toNat_ofNat_of_le h1, rd16_ofNat_split hq]), rd16_be16, rd16_ofNat_split hq]
+
+theorem Request.redecode_rwmr (ra rq wa : UInt16) (d : Data) (hq : d.quantity < 65536)
+    (h1 : d.quantity * 2 ≤ 255) (h2 : d.data.length = d.quantity * 2) :
+    Request.decode (Request.readWriteMultipleRegisters ra rq wa d).image =
+      .ok (.readWriteMultipleRegisters ra rq wa d) := by
+  have himg : (Request.readWriteMultipleRegisters ra rq wa d).image =
+      0x17 :: UInt8.ofNat (ra.toNat / 256) :: UInt8.ofNat (ra.toNat % 256) ::
+        UInt8.ofNat (rq.toNat / 256) :: UInt8.ofNat (rq.toNat % 256) ::
+        UInt8.ofNat (wa.toNat / 256) :: UInt8.ofNat (wa.toNat % 256) ::
+        UInt8.ofNat ((UInt16.ofNat d.quantity).toNat / 256) :: UInt8.ofNat ((UInt16.ofNat d.quantity).toNat % 256) ::
+        UInt8.ofNat (d.quantity * 2) :: d.data := rfl
+  rw [himg, Request.decode_rwmr_bytes _ _ _ _ _ _ _ _ _ _
+    (by rw [UInt8.toNat_ofNat_of_le h1, h2])
+    (by rw [UInt8.toNat_ofNat_of_le h1, rd16_ofNat_split hq]), rd16_be16, rd16_be16, rd16_be16,
+    rd16_ofNat_split hq]
+
+theorem Response.redecode_coils (c : Coils) (h1 : c.packedLen ≤ 255) (h2 : c.packedLen ≤ c.data.length) :
+    Response.decode (Response.readCoils c).image =
+      .ok (.readCoils ⟨c.data.take c.packedLen, c.packedLen * 8⟩) ∧
+    Response.decode (Response.readDiscreteInputs c).image =
+      .ok (.readDiscreteInputs ⟨c.data.take c.packedLen, c.packedLen * 8⟩) := by
+  have hl : (UInt8.ofNat c.packedLen).toNat = (c.data.take c.packedLen).length := by
+    rw [UInt8.toNat_ofNat_of_le h1, List.length_take]; omega
+  have := Response.decode_coils_bytes (UInt8.ofNat c.packedLen) (c.data.take c.packedLen) hl
+  rw [UInt8.toNat_ofNat_of_le h1] at this
+  exact this
+
+theorem Response.redecode_regs (d : Data) (h1 : d.quantity * 2 ≤ 255) (h2 : d.quantity * 2 ≤ d.data.length) :
+    Response.decode (Response.readHoldingRegisters d).image =
+      .ok (.readHoldingRegisters ⟨d.data.take (d.quantity * 2), d.quantity⟩) ∧
+    Response.decode (Response.readInputRegisters d).image =
+      .ok (.readInputRegisters ⟨d.data.take (d.quantity * 2), d.quantity⟩) ∧
+    Response.decode (Response.readWriteMultipleRegisters d).image =
+      .ok (.readWriteMultipleRegisters ⟨d.data.take (d.quantity * 2), d.quantity⟩) := by
+  have hl : (UInt8.ofNat (d.quantity * 2)).toNat = (d.data.take (d.quantity * 2)).length := by
+    rw [UInt8.toNat_ofNat_of_le h1, List.length_take]; omega
+  have := Response.decode_regs_bytes (UInt8.ofNat (d.quantity * 2)) (d.data.take (d.quantity * 2)) hl
+  rw [UInt8.toNat_ofNat_of_le h1, Nat.mul_div_cancel _ (by omega : 0 < 2)] at this
+  exact this
 
 end Modbus
